@@ -83,6 +83,9 @@ type caseT struct {
 	CRC bool  `json:"crc"`
 	NB  []int `json:"bundles_per_repo"`
 	Ops []opT `json:"ops"`
+	// Reuse: one core.Label object per label name serves every set and get of the case, whatever the
+	// repository or bundle (a library caller may keep it; the CLI builds a fresh one per command)
+	Reuse bool `json:"reuse_label_objects,omitempty"`
 }
 
 func repoName(i int) string {
@@ -210,7 +213,7 @@ func drawPrefix(t *rapid.T, universe []string) string {
 }
 
 func drawCase(t *rapid.T) caseT {
-	c := caseT{CRC: rapid.Bool().Draw(t, "crc")}
+	c := caseT{CRC: rapid.Bool().Draw(t, "crc"), Reuse: rapid.IntRange(0, 2).Draw(t, "reuse_labels") == 0}
 	// a handful of bundle-count vectors: each (crc, vector) needs its own base environment of real uploads
 	c.NB = append([]int{}, rapid.SampledFrom(nbVectors).Draw(t, "nb")...)
 	nu := rapid.IntRange(3, 8).Draw(t, "universe")
@@ -402,6 +405,24 @@ func getBase(crc bool, nb []int) (*hx.Env, [][]string, error) {
 type handles struct {
 	stores context2.Stores
 	m      map[string]*core.Bundle
+	reuse  bool
+	labels map[string]*core.Label
+}
+
+// label returns the core.Label object to use for a name: a fresh one, or in reuse mode the one kept for that name
+func (h *handles) label(name string, mk func() *core.Label) *core.Label {
+	if !h.reuse {
+		return mk()
+	}
+	if l, ok := h.labels[name]; ok {
+		return l
+	}
+	if h.labels == nil {
+		h.labels = map[string]*core.Label{}
+	}
+	l := mk()
+	h.labels[name] = l
+	return l
 }
 
 func (h *handles) bundle(repo, id string) *core.Bundle {
@@ -422,15 +443,19 @@ func (h *handles) bundle(repo, id string) *core.Bundle {
 }
 
 func (h *handles) setLabel(repo, name, bundle string) error {
-	l := core.NewLabel(core.LabelDescriptor(model.NewLabelDescriptor(
-		model.LabelContributor(model.Contributor{Name: "verif", Email: "verif@example.com"}),
-		model.LabelName(name),
-	)))
+	l := h.label(name, func() *core.Label {
+		return core.NewLabel(core.LabelDescriptor(model.NewLabelDescriptor(
+			model.LabelContributor(model.Contributor{Name: "verif", Email: "verif@example.com"}),
+			model.LabelName(name),
+		)))
+	})
 	return l.UploadDescriptor(context.Background(), h.bundle(repo, bundle))
 }
 
 func (h *handles) getLabel(repo, name string, checkRepo bool) (model.LabelDescriptor, error) {
-	l := core.NewLabel(core.LabelDescriptor(model.NewLabelDescriptor(model.LabelName(name))))
+	l := h.label(name, func() *core.Label {
+		return core.NewLabel(core.LabelDescriptor(model.NewLabelDescriptor(model.LabelName(name))))
+	})
 	err := l.DownloadDescriptor(context.Background(), h.bundle(repo, ""), checkRepo)
 	return l.Descriptor, err
 }
@@ -774,7 +799,7 @@ func runCase(c caseT) (*runT, error) {
 		return nil, err
 	}
 	stores := env.Actor("p").Stores
-	r := &runT{env: env, stores: stores, h: handles{stores: stores}, bundles: bundles, live: map[lkey]string{}, names: map[string]bool{},
+	r := &runT{env: env, stores: stores, h: handles{stores: stores, reuse: c.Reuse}, bundles: bundles, live: map[lkey]string{}, names: map[string]bool{},
 		deleted: map[lkey]bool{}, classes: map[string]bool{}}
 	meta0 := snapshot(env.Meta)
 	if err := r.checkAll(-1); err != nil {
